@@ -16,8 +16,10 @@ import (
 	"sort"
 	"strconv"
 	"strings"
+	"sync"
 
 	. "vh/lib"
+	"vh/sched"
 
 	"github.com/cnotch/ipchub/av/codec"
 	"github.com/cnotch/ipchub/av/codec/aac"
@@ -343,8 +345,153 @@ func runCase(c Val) Val {
 	return L(outs...)
 }
 
+// runLts replays a schedule of the fetch/rollover transition system (coq/Model/C10HlsLts.v) on the real
+// Playlist/SegmentGenerator.  The writer goroutine parks before every frame; a fetch goroutine parks at the
+// schedule point hls.segment.get (segment found, in the code as it is still holding the playlist read lock).
+// case = ( cfg frames sched ); observation = ( results blocked ).
+func runLts(c Val) Val {
+	cfg := c.At(0)
+	frag := int(cfg.At(0).Int())
+	rate := int(cfg.At(1).Int())
+	mem := cfg.At(2).Bool()
+	path := cfg.At(4).Str()
+	dir := ""
+	if !mem {
+		d, err := ioutil.TempDir("", "c10lts")
+		if err != nil {
+			panic(err)
+		}
+		dir = d
+		defer os.RemoveAll(dir)
+	}
+	pl := hls.NewPlaylist()
+	sg, err := hls.NewSegmentGenerator(pl, path, frag, dir, rate, nil)
+	if err != nil {
+		panic(err)
+	}
+	vp := mpegts.NewH264Packetizer(&codec.VideoMeta{Codec: "H264", Sps: cfg.At(5).Bytes(), Pps: cfg.At(6).Bytes()}, sg)
+	ap := mpegts.NewAacPacketizer(&codec.AudioMeta{Codec: "AAC", SampleRate: 44100, Channels: 2, Sps: aac.Encode2BytesASC(2, 4, 2)}, sg)
+
+	ctl := sched.New()
+	ctl.Allow = func(thread, point string) bool {
+		if point == "h.start" {
+			return true
+		}
+		if thread == "writer" {
+			return point == "w.frame"
+		}
+		return point == "hls.segment.get"
+	}
+	var mu sync.Mutex
+	stop := false
+	var wg sync.WaitGroup
+	frames := c.At(1).List()
+	wg.Add(1)
+	ctl.Go("writer", func() {
+		defer wg.Done()
+		for _, fv := range frames {
+			ctl.Here("w.frame")
+			mu.Lock()
+			st := stop
+			mu.Unlock()
+			if st {
+				return
+			}
+			f := &codec.Frame{Pts: ns(fv.At(1).Int()), Dts: ns(fv.At(2).Int()), Payload: fv.At(3).Bytes()}
+			if fv.At(0).Int() == 0 {
+				f.MediaType = codec.MediaTypeAudio
+				ap.Packetize(f)
+			} else {
+				f.MediaType = codec.MediaTypeVideo
+				vp.Packetize(f)
+			}
+		}
+	})
+	ctl.Step("writer") // from h.start to the first w.frame
+
+	type fetch struct {
+		name   string
+		parked bool // it reached hls.segment.get: the lookup found the segment
+		res    Val  // set by the goroutine when Segment returned
+		done   bool
+	}
+	var order []*fetch
+	byID := map[int64]*fetch{}
+	blocked := []Val{}
+	for _, lab := range c.At(2).List() {
+		switch lab.At(0).Int() {
+		case 0:
+			if st := ctl.Status("writer"); st == "w.frame" {
+				ctl.Step("writer")
+			}
+		case 1:
+			id, seq := lab.At(1).Int(), int(lab.At(2).Int())
+			if ctl.Status("writer") == "blocked" || byID[id] != nil {
+				break
+			}
+			ft := &fetch{name: "f" + strconv.FormatInt(id, 10)}
+			byID[id] = ft
+			order = append(order, ft)
+			wg.Add(1)
+			ctl.Go(ft.name, func() {
+				defer wg.Done()
+				var out Val
+				func() {
+					defer func() {
+						if r := recover(); r != nil {
+							out = L(I(2))
+						}
+					}()
+					r, size, err := pl.Segment(seq)
+					if err != nil {
+						out = L(I(0)) // refined below: an error after the segment had been found is ( 3 )
+						return
+					}
+					out = L(I(1), segObs(readAll(r), size))
+					closeReader(r)
+				}()
+				mu.Lock()
+				ft.res, ft.done = out, true
+				mu.Unlock()
+			})
+			ctl.Step(ft.name)
+			if ctl.Status(ft.name) == "hls.segment.get" {
+				ft.parked = true
+			}
+		default:
+			if ft := byID[lab.At(1).Int()]; ft != nil && ctl.Status(ft.name) == "hls.segment.get" {
+				ctl.Step(ft.name)
+			}
+		}
+		blocked = append(blocked, Bo(ctl.Status("writer") == "blocked"))
+	}
+	results := []Val{}
+	for _, ft := range order {
+		mu.Lock()
+		done, res := ft.done, ft.res
+		mu.Unlock()
+		switch {
+		case !done:
+			results = append(results, L())
+		case ft.parked && res.At(0).Int() == 0:
+			results = append(results, L(L(I(3))))
+		default:
+			results = append(results, L(res))
+		}
+	}
+	mu.Lock()
+	stop = true
+	mu.Unlock()
+	ctl.Finish()
+	wg.Wait()
+	sg.Close()
+	pl.Close()
+	return L(L(results...), L(blocked...))
+}
+
 func init() {
 	commands["C10"] = runCase
+	commands["C10_lts"] = runLts
 	// ( x n ) -> what Go's float64 arithmetic and fmt give for the expressions of the segmenter and the playlist
 	commands["C10_float"] = func(c Val) Val {
 		x, n := c.At(0).Int(), int(c.At(1).Int())
